@@ -35,8 +35,11 @@ type c15Case struct {
 const c15Slots = 3
 
 // canonOf renders a result with W1 (types, flags, order) and W2; they must agree.
+// c15W1: W1 state shared by all walks of one C15 case (reset when a case starts; C15 cases run on one goroutine).
+var c15W1 = &w1State{}
+
 func canonOf(pj *simdjson.ParsedJson) ([]byte, error) {
-	a, err := walkW1(pj)
+	a, err := walkW1State(pj, c15W1)
 	if err != nil {
 		return nil, err
 	}
@@ -51,6 +54,7 @@ func canonOf(pj *simdjson.ParsedJson) ([]byte, error) {
 }
 
 func c15Check(c c15Case) error {
+	c15W1 = &w1State{}
 	pool := make([]*simdjson.ParsedJson, c15Slots)
 	model := make([][]byte, c15Slots) // canonical form each pooled object must expose (nil: unknown / dead)
 	sers := []*simdjson.Serializer{simdjson.NewSerializer(), simdjson.NewSerializer()}
@@ -564,6 +568,7 @@ func bigStringDoc(prefix string, n int, atom string) []byte {
 }
 
 func c15FailGoodCheck(c c15FailGood) error {
+	c15W1 = &w1State{}
 	docA := bigStringDoc("alpha-", c.NA, "true")
 	docB := bigStringDoc("BRAVO-", c.NB, "null")
 	pjA, err := simdjson.Parse(docA, nil)
@@ -705,6 +710,7 @@ func sameLengthSibling(text []byte, seed uint64) []byte {
 }
 
 func c15SharedBufCheck(c c15SharedBuf) error {
+	c15W1 = &w1State{}
 	max := 0
 	for _, d := range c.Docs {
 		if len(d) > max {
